@@ -279,6 +279,7 @@ func (e *Exec) checkPosts(fr *Frame, st *State, ret *ssa.Return, vals []Val) {
 			lbl = fmt.Sprintf("%d", i+1)
 		}
 		o := e.obligeNoAssume(st, "post:"+lbl+suffix, "post", c.Tags, g, c.Text, ret.Pos())
+		o.Clause = c.Expr
 		o.Results = vals
 		for _, v := range vals {
 			o.ResultTerms = append(o.ResultTerms, flatten(v)...)
